@@ -48,6 +48,9 @@ type Opts struct {
 
 	// operation weights
 	WMint, WDeliver, WClean, WSave, WReload, WMark, WUnmark, WSubscribe, WAdversarial, WQuery, WProof, WLocator, WCrash int
+	// WSplit: weight of configuring a chain split at the next height (verif hook SetSplitsForSimulation),
+	// so that locators and submissions are exercised below, between and above split heights.
+	WSplit int
 
 	// Allow small prune depths through the verif hook.
 	SmallPrune bool
@@ -92,6 +95,11 @@ type World struct {
 	reloads     int
 
 	large           bool // long chain mode: chains cross 1000-header file boundaries; checks run per operation
+	straddled       bool
+	splits          []headers.Split // chain splits configured at low heights (hook)
+	splitAfter      map[model.Hash]int
+	splitBefore     map[model.Hash]bool
+	boundary        bool // long chain mode around the automatic clean at height 10000 with the real prune depth
 	quiet           bool // inside a bulk operation: per-event oracle groups are deferred to its end
 	markBeyondPrune bool
 	trimParents     map[*model.Node]bool
@@ -144,6 +152,13 @@ func Start(c *core.Ctx, o Opts) *World {
 			if cfg.A > 100 {
 				cfg.A = 8
 			}
+			if t.Chance(1, 4) {
+				// boundary mode: the real prune depth, and a chain grown to just below the height of
+				// the automatic clean, so that forks, reorganisations, Clean, Save and Load happen
+				// around the 10000 line itself
+				cfg.D = 2
+				cfg.B = realPruneDepth
+			}
 		}
 		w.peers = 1 + t.Draw(4)
 		w.skew = make([]int, w.peers)
@@ -160,7 +175,8 @@ func Start(c *core.Ctx, o Opts) *World {
 	c.Record(cfg)
 	w.maxDepth = cfg.A
 	w.pruneDepth = cfg.B
-	w.large = cfg.D == 1
+	w.large = cfg.D >= 1
+	w.boundary = cfg.D == 2
 	w.cfg = &headers.Config{Network: bitcoin.MainNet, MaxBranchDepth: w.maxDepth}
 	if o.ConfigInvalid {
 		w.cfg.InvalidHeaderHashes = []bitcoin.Hash32{configInvalidHash}
@@ -181,6 +197,7 @@ var configInvalidHash = model.DoubleSHA([]byte("config supplied invalid hash"))
 func (w *World) openFresh() error {
 	w.repo = headers.NewRepository(w.cfg, w.st)
 	w.repo.DisableDifficulty()
+	w.applySplits(w.repo)
 	var err error
 	if w.pruneDepth > 0 {
 		err = w.repo.LoadWithPruneDepth(w.ctx, w.pruneDepth)
@@ -269,11 +286,21 @@ func hasAcceptedChild(p *model.Node, except *model.Node) bool {
 	return false
 }
 
+// applySplits configures the simulated chain splits on a repository (no-op without any).
+func (w *World) applySplits(repo *headers.Repository) {
+	if len(w.splits) > 0 {
+		repo.SetSplitsForSimulation(append(headers.Splits(nil), w.splits...))
+	}
+}
+
 // expected returns the set of verdicts the reference allows for submitting n now.
 func (w *World) expected(n *model.Node) (allowed []string) {
 	p := n.Parent
 	if p == nil { // genesis resubmitted
 		return []string{"ok", "unknown-parent"}
+	}
+	if h, isSplit := w.splitAfter[n.Hash]; isSplit && !n.Accepted && (h == n.Height || !p.Accepted) {
+		return []string{"wrong-chain"} // the first header of another chain at a configured split
 	}
 	if !p.Accepted {
 		return []string{"unknown-parent"}
@@ -530,6 +557,10 @@ func (w *World) afterMutation(oldTip *model.Node, submitted *model.Node, verdict
 		} else {
 			w.c.Probe("reorg")
 			fp := model.ForkPoint(oldTip, tn)
+			if fp != nil && tn.Height/realPruneDepth > fp.Height/realPruneDepth && tn.Height%realPruneDepth != 0 && oldTip.Height/realPruneDepth == fp.Height/realPruneDepth {
+				// the best chain passed the height of an automatic clean without ever having its tip on it
+				w.c.Probe("reorg-skipped-automatic-clean-height")
+			}
 			if fp != nil && oldTip.Height-fp.Height >= 2 {
 				w.c.Probe("reorg-depth>=2")
 			}
